@@ -262,7 +262,7 @@ func (e *Engine) buildScript(decls, facts []string, goal string, negate bool) st
 	}
 	scan(body)
 	var b strings.Builder
-	b.WriteString(prelude)
+	needStr := false
 	var ls []string
 	for l := range needLits {
 		ls = append(ls, l)
@@ -273,13 +273,25 @@ func (e *Engine) buildScript(decls, facts []string, goal string, negate bool) st
 			b.WriteString(d + "\n")
 		}
 	}
+	var specText strings.Builder
 	// declarations first, then definitions/axioms (axioms may mention any spec function)
 	for _, id := range specOrder {
-		b.WriteString(e.specDeclSMT(id))
+		specText.WriteString(e.specDeclSMT(id))
 	}
 	for _, id := range specOrder {
-		b.WriteString(e.specAxiomsSMT(id))
+		specText.WriteString(e.specAxiomsSMT(id))
 	}
+	if len(needLits) > 0 || strings.Contains(body, "str.") || strings.Contains(body, " Str") || strings.Contains(specText.String(), "str.") || strings.Contains(specText.String(), " Str") {
+		needStr = true
+	}
+	var hdr strings.Builder
+	if needStr {
+		hdr.WriteString(preludeStr)
+	}
+	hdr.WriteString(preludeArith)
+	full := hdr.String() + b.String() + specText.String()
+	b.Reset()
+	b.WriteString(full)
 	for _, d := range decls {
 		b.WriteString(d + "\n")
 	}
